@@ -525,6 +525,8 @@ def gen_case(rng, fams, flavour=None):
     # circumstances that must not matter to the numerical Jacobians of THIS edge: some of its vertices are marked fixed (an anchor, or the first
     # vertex after an earlier optimize()); another edge of the same class over the same vertices, with another measurement, was differentiated first
     case['fixed'] = [rng.random() < 0.3 for _ in kinds]
+    if rng.random() < 0.15:
+        case['eps'] = rng.choice([1e-7, 1e-5, 2.0 ** -20])       # an edge class that overrides the documented step _NUMERICAL_DIFFERENTIATION_EPSILON
     if rng.random() < 0.3:
         if isinstance(estk, tuple):
             case['decoy_params'] = [x + rng.choice([1.0, -0.5, 2.25]) for x in params]
@@ -583,7 +585,10 @@ def run_real(case, exprs):
             ExprEdge([v.id for v in vs], np.eye(len(exprs)), np.array(case['decoy_params'], dtype=np.float64), exprs, vs, set()).calc_jacobians()
         except Exception:  # noqa
             pass
-    e = ExprEdge([v.id for v in vs], np.eye(len(exprs)), np.array(case['params'], dtype=np.float64), exprs, vs, log)
+    cls_e = ExprEdge
+    if case.get('eps'):
+        cls_e = type('ExprEdgeWithOwnStep', (ExprEdge,), {'_NUMERICAL_DIFFERENTIATION_EPSILON': float(case['eps'])})
+    e = cls_e([v.id for v in vs], np.eye(len(exprs)), np.array(case['params'], dtype=np.float64), exprs, vs, log)
     try:
         err0 = [float(x) for x in e.calc_error()]
         jac = e.calc_jacobians()
